@@ -2730,3 +2730,15 @@ variant('t-parser-clears-its-buffer-when-everything-was-consumed', ['C04', 'C12'
         "            self._buffer = self._buffer[length + frame_length_byte_count:]\n            total -= length + frame_length_byte_count\n",
         "            self._buffer = self._buffer[length + frame_length_byte_count:]\n            total -= length + frame_length_byte_count\n            if total == 0:\n                self._buffer.clear()\n",
         kind='twin')
+
+# C12.q decoded text can be encoded again; C12.g / C12.l follow text helpers
+variant('b-error-text-decoded-with-surrogateescape', ['C12'], 'rsocket/frame.py',
+        "    return RuntimeError(frame.data.decode('utf-8'))\n",
+        "    return RuntimeError(frame.data.decode('utf-8', errors='surrogateescape'))\n",
+        ('C12.q', 'decode(errors='))
+variant_multi('t-error-text-through-a-helper', ['C12', 'C13', 'C16', 'C07'], [
+    ('rsocket/frame.py', "def error_frame_to_exception(frame: ErrorFrame) -> Exception:\n",
+     "def _error_text(frame: ErrorFrame) -> str:\n    return frame.data.decode('utf-8')\n\n\ndef error_frame_to_exception(frame: ErrorFrame) -> Exception:\n"),
+    ('rsocket/frame.py', "        return RSocketProtocolError(frame.error_code, data=frame.data.decode())\n\n    return RuntimeError(frame.data.decode('utf-8'))\n",
+     "        return RSocketProtocolError(frame.error_code, data=_error_text(frame))\n\n    return RuntimeError(_error_text(frame))\n")],
+    kind='twin')
